@@ -19,6 +19,8 @@
 (*   StaleClose      goroutines call the public Close: no ownership (D6)   *)
 (*   NoWatcher       nobody closes on cancellation if send just leaves (D7)*)
 (*   InitBeforeCheck Connect re-initialises before the connected test (D4) *)
+(*   EarlyUnlock     close releases the lifecycle lock before it waits for *)
+(*                   the connection's goroutines (a seeded change, C07e)   *)
 (***************************************************************************)
 EXTENDS Naturals, Sequences, FiniteSets, TLC
 
@@ -35,7 +37,7 @@ CONSTANTS
   Reconnect,     \* "none" | "handler" (from the DISCONNECTED handler) | "other" (another goroutine)
   ConnectWhileUp,\* a user goroutine may call Connect while connected (must be refused)
   HasPing,       \* the ping goroutine exists
-  DrainOnce, StaleClose, NoWatcher, InitBeforeCheck
+  DrainOnce, StaleClose, NoWatcher, InitBeforeCheck, EarlyUnlock
 
 NoOne == <<0, "none">>
 Gens == 1..MaxGen
@@ -149,9 +151,12 @@ ConnectFails ==
   /\ inQ' = <<>> /\ outQ' = <<>>
   /\ UNCHANGED <<lifeVars, netVars, goVars, closeVars, regLeft, sendVars, fired, discConn, cause, crashed>>
 
-\* another goroutine, woken by DISCONNECTED, reconnects
+\* another goroutine reconnects: woken by DISCONNECTED ("other"), or as soon as it finds the client
+\* disconnected ("eager" - its Connect then waits for the teardown in progress to release the lock)
 OtherReconnect ==
-  /\ Reconnect = "other" /\ gen >= 1 /\ fired[gen].disc >= 1 /\ CanConnect
+  /\ \/ Reconnect = "other" /\ gen >= 1 /\ fired[gen].disc >= 1
+     \/ Reconnect = "eager" /\ gen >= 1
+  /\ CanConnect
   /\ ConnectEffect(gpc, fired)
   /\ UNCHANGED <<mu, ctx, netVars, hold, hsend, wline, closeVars, upTries, sendVars, discConn, cause, crashed>>
 
@@ -312,7 +317,7 @@ Finished(c) == IF c \in IntClosers THEN [gpc EXCEPT ![c[1]][c[2]] = "done"] ELSE
 CloseEnter(c) ==
   /\ cpc[c] = "enter" /\ mu = NoOne
   /\ IF connected /\ Mine(c)
-       THEN /\ mu' = c /\ connected' = FALSE
+       THEN /\ mu' = (IF EarlyUnlock THEN NoOne ELSE c) /\ connected' = FALSE
             /\ sockOpen' = [sockOpen EXCEPT ![gen] = FALSE]
             /\ ctx' = [ctx EXCEPT ![gen] = TRUE]
             /\ cgen' = [cgen EXCEPT ![c] = gen]
@@ -335,7 +340,7 @@ CloseDrain(c) ==
 \* wg.Wait() returned; Unlock
 CloseWaited(c) ==
   /\ cpc[c] = (IF DrainOnce THEN "wait" ELSE "drain") /\ wg = 0
-  /\ mu' = NoOne /\ cpc' = [cpc EXCEPT ![c] = "disp"]
+  /\ mu' = (IF EarlyUnlock THEN mu ELSE NoOne) /\ cpc' = [cpc EXCEPT ![c] = "disp"]
   /\ UNCHANGED <<connected, gen, sockOpen, ctx, wg, qVars, netVars, goVars, cgen, closedBy, connVars, sendVars, obsVars>>
 
 \* dispatch DISCONNECTED (its handler may reconnect) and return
